@@ -268,6 +268,14 @@ static void s20_target(Src &s, Case &c)
     const Entry &e = FAMILY[s.below(NFAMILY)];
     e.run(s, c, e.name);
 }
+static void s20_defaults_target(Src &s, Case &c)
+{
+    run_type<SF>(s, c, "SF");
+    c.label("defaults_struct");
+}
+VP_TARGET("s20_defaults", s20_defaults_target,
+          "serializer20 on a serialize_reflect struct whose default-constructed members are not empty (int 7, vector<uint8>{AA,55}, vector<double>{1.5}) x two "
+          "generated values, empty vectors included: same round trip / consumed / wire format checks as s20");
 VP_TARGET("s20", s20_target,
           "type drawn from the 23 members of the family that serializer20 supports (8 fixed-width integers, float, "
           "double, vectors of scalars, vector<vector<int16>>, vector^3<uint8>, vector<struct>, 3 serialize_reflect "
